@@ -180,6 +180,9 @@ impl Property for C20 {
                     crate::producer::plant_late_type(rng, &mut stream);
                 }
                 if rng.chance(1, 4) {
+                    crate::producer::plant_spec_constant_op(rng, &mut stream);
+                }
+                if rng.chance(1, 4) {
                     stream.insts.push(MInst {
                         opcode: s.op("Constant"),
                         rtype: Some(rng.range(1, 300) as u32),
